@@ -335,6 +335,10 @@ func c05Gen(rt *rapid.T) c05Case {
 			}
 			op.PayloadLen = c05PayloadLenFor(rt, hdr, huge)
 			return op
+		case k == 10 && rapid.IntRange(0, 3).Draw(rt, "oversize") == 0:
+			// a string the protocol cannot carry (>= 65536 bytes): must be refused (error or documented panic)
+			// before anything is written, or else be written correctly - never as a malformed packet
+			return c05Op{Kind: "oversize", Topic: rapid.SampledFrom([]string{"topic", "filter", "unfilter"}).Draw(rt, "field"), PayloadLen: rapid.SampledFrom([]int{65536, 65537, 70000, 131072}).Draw(rt, "olen")}
 		case k == 10:
 			return c05Op{Kind: "badqos", Topic: refGenTopic(rt, "t"), QoS: rapid.IntRange(3, 255).Draw(rt, "q"), PayloadLen: rapid.IntRange(0, 10).Draw(rt, "pl"), ViaRetry: rapid.Bool().Draw(rt, "viaRetry")}
 		default:
@@ -570,6 +574,47 @@ func c05Run(tb rapid.TB, c c05Case) {
 				nontrivial = true
 				labels = append(labels, "inbound:len-field>=2")
 			}
+		case "oversize":
+			bb := make([]byte, op.PayloadLen)
+			for i := range bb {
+				bb[i] = 'a' + byte(i%26)
+			}
+			big := string(bb)
+			var err error
+			var pan interface{}
+			func() {
+				defer func() { pan = recover() }()
+				switch op.Topic {
+				case "topic":
+					err = r.cli.Publish(ctx, &Message{Topic: big, QoS: QoS1, Payload: []byte("x")})
+				case "filter":
+					_, err = r.cli.Subscribe(ctx, Subscription{Topic: "ok", QoS: QoS1}, Subscription{Topic: big, QoS: QoS1})
+				default:
+					err = r.cli.Unsubscribe(ctx, big)
+				}
+			}()
+			r.peer.mu.Lock()
+			ferr, pend := r.peer.frameErr, r.peer.fr.Pending()
+			r.peer.mu.Unlock()
+			if ferr != nil || pend != 0 {
+				fail("%s: a %d-byte %s was written as a malformed packet (%v, %d stray bytes) instead of being refused; call returned err=%v panic=%v", what, op.PayloadLen, op.Topic, ferr, pend, err, pan)
+			}
+			if pan == nil && err == nil {
+				// accepted: then the packet on the wire must carry exactly that string
+				got := r.peer.received()[before:]
+				ok := len(got) == 1 && ((op.Topic == "topic" && got[0].Topic == big) || (op.Topic != "topic" && len(got[0].Filters) > 0 && got[0].Filters[len(got[0].Filters)-1] == big))
+				if !ok {
+					fail("%s: a %d-byte %s was accepted but is not on the wire unchanged", what, op.PayloadLen, op.Topic)
+				}
+			}
+			if pan != nil {
+				// the documented refusal of this library is a panic; the muWrite / connect locks must not stay held
+				labels = append(labels, "rejected:oversize-panic")
+				if nrecv() != before {
+					fail("%s: refused with a panic but bytes were written", what)
+				}
+			}
+			labels = append(labels, "oversize:"+op.Topic)
 		case "badqos", "toolong":
 			n := op.PayloadLen
 			wantErr := ErrInvalidQoS
